@@ -9,12 +9,15 @@ import time
 HERE = os.path.dirname(os.path.dirname(os.path.abspath(__file__)))
 first, last = int(sys.argv[1]), int(sys.argv[2])
 pids = sys.argv[3:] or ["C02", "C12", "C13", "C16", "C20"]
+base_env = dict(os.environ)
+if os.environ.get("VP_RUN_REPO") and not os.environ.get("VERIF_REPO"):
+    base_env["VERIF_REPO"] = os.environ["VP_RUN_REPO"]  # vp run --with-repo: a snapshot of /repo's HEAD, immune to later edits
 bad = 0
 t0 = time.time()
 for seed in range(first, last + 1):
     for pid in pids:
         r = subprocess.run(["/venv/bin/python", os.path.join(HERE, "check.py"), pid, "--seed", str(seed), "--no-evidence"],
-                           capture_output=True, text=True, env=dict(os.environ, PYTHONHASHSEED=str(seed % 7)))
+                           capture_output=True, text=True, env=dict(base_env, PYTHONHASHSEED=str(seed % 7)))
         if r.returncode != 0:
             bad += 1
             print(f"ALARM seed={seed} {pid} rc={r.returncode}\n{r.stdout[-1500:]}\n{r.stderr[-1500:]}", flush=True)
